@@ -39,6 +39,9 @@ class C12(Prop):
         "NV.C12.gucOrder_spec",
         "NV.C12.gucScanOrder_spec",
         "NV.C12.pucOrder_spec",
+        "NV.C12.firstCmdInBufOrder_spec",
+        "NV.C12.cmdInBufOrder_spec",
+        "NV.C12.nextCmdInBufOrder_spec",
         "NV.C12.cursor_in_bounds",
         "NV.C12.run_never_crashes",
         "NV.C12.processIO_safe",
